@@ -32,6 +32,10 @@ def stepSpec (line : String) : String :=
       | some es => Spec.renderReport es
       | none => "undef"
     | _, _ => "bad-op"
+  | ["polls", d] =>
+    match (readSx d).bind sxDecl with
+    | some decl => toString (Spec.validatedFields decl)
+    | none => "bad-op"
   | _ => "bad-op"
 
 def main : IO Unit := do
